@@ -265,12 +265,17 @@ func deleteNode(db dbm.DB, mp map[string][]hashData, curHeight int64, batch dbm.
 						err := types.Decode(value, &pData)
 						if err == nil {
 							for _, hash := range pData.Hashs {
+								if len(hash) == sha256Len {
+									continue // un-prefixed (root) hash: shared by every height that reaches the same content
+								}
 								batch.Delete(hash)
 							}
 						}
 					}
 					batch.Delete(leafCountKey) // 叶子计数节点
-					batch.Delete(val.hash)     // 叶子节点hash值
+					if len(val.hash) != sha256Len {
+						batch.Delete(val.hash) // 叶子节点hash值
+					}
 					if batch.ValueSize() > batchDataSize {
 						dbm.MustWrite(batch)
 						batch.Reset()
@@ -360,12 +365,17 @@ func deleteOldNode(db dbm.DB, mp map[string][]hashData, curHeight int64, batch d
 							err := types.Decode(value, &pData)
 							if err == nil {
 								for _, hash := range pData.Hashs {
+									if len(hash) == sha256Len {
+										continue // un-prefixed (root) hash: shared by every height that reaches the same content
+									}
 									batch.Delete(hash)
 								}
 							}
 						}
 						batch.Delete(leafCountKey)
-						batch.Delete(val.hash) // 叶子节点hash值
+						if len(val.hash) != sha256Len {
+							batch.Delete(val.hash) // 叶子节点hash值
+						}
 					}
 				}
 			} else {
